@@ -320,6 +320,7 @@ impl<T> TooDeeOpsMut<T> for TooDee<T> {
     /// ```
     fn swap_rows(&mut self, mut r1: usize, mut r2: usize) {
         if r1 == r2 {
+            assert!(r1 < self.num_rows);
             return;
         }
         if r2 < r1 {
